@@ -546,6 +546,137 @@ def probe_vlen_ok():
         return False
 
 
+# ----------------------------------------------------------------- histories (several calls in one process)
+def _result_arrays(mem):
+    """every numpy array reachable from an InMemoryGeff, with a name"""
+    out = [("node_ids", mem["node_ids"]), ("edge_ids", mem["edge_ids"])]
+    for grp in ("node_props", "edge_props"):
+        for k, pd in mem[grp].items():
+            out.append((f"{grp}[{k}].values", pd["values"]))
+            if pd["missing"] is not None:
+                out.append((f"{grp}[{k}].missing", pd["missing"]))
+            if pd["values"].dtype == object:
+                for i, el in enumerate(pd["values"]):
+                    if isinstance(el, np.ndarray):
+                        out.append((f"{grp}[{k}].values[{i}]", el))
+    return out
+
+
+def _edit_in_place(mem):
+    """what a caller building an invalid fixture does: overwrite every array of the result in place and
+    change the returned metadata object"""
+    for _name, a in _result_arrays(mem):
+        try:
+            if a.dtype == object:
+                continue                        # its element arrays are listed on their own
+            if a.dtype.kind in "iu":
+                a[...] = 0                      # e.g. every edge becomes the self edge (0, 0)
+            elif a.dtype.kind == "f":
+                a[...] = -1.5
+            elif a.dtype.kind == "b":
+                a[...] = ~a
+            elif a.dtype.kind == "U":
+                a[...] = "edited"
+        except (ValueError, TypeError):         # read-only or immutable: nothing to edit
+            pass
+    md = mem["metadata"]
+    for edit in (lambda: setattr(md, "directed", not md.directed),
+                 lambda: [setattr(ax, "unit", "meter") for ax in (md.axes or [])],
+                 lambda: [setattr(ax, "min", None) or setattr(ax, "max", None) for ax in (md.axes or [])],
+                 lambda: md.node_props_metadata.clear(),
+                 lambda: md.edge_props_metadata.clear()):
+        try:
+            edit()
+        except Exception:  # noqa: BLE001
+            pass
+
+
+def observe_history(hist):
+    """run the calls of `hist["history"]` in THIS process, one after the other; after each call describe the
+    result, look for memory shared with earlier results, then edit the result in place"""
+    out = {"steps": [], "shared": []}
+    earlier = []
+    for i, case in enumerate(hist["history"]):
+        try:
+            store, mem = call(case)
+        except Exception as ex:  # noqa: BLE001
+            out["steps"].append({"exc": type(ex).__name__, "msg": str(ex)[:160]})
+            continue
+        try:
+            out["steps"].append(_describe(case, store, mem))
+            arrs = _result_arrays(mem)
+            for j, prev in earlier:
+                for na, a in arrs:
+                    for nb, b in prev:
+                        if a.size and b.size and np.shares_memory(a, b):
+                            out["shared"].append([j, nb, i, na])
+            earlier.append((i, arrs))
+            _edit_in_place(mem)
+        except Exception as ex:  # noqa: BLE001
+            out["steps"].append({"unreadable": f"{type(ex).__name__}: {str(ex)[:200]}"})
+    return out
+
+
+def _safe_observe_history(hist):
+    try:
+        return observe_history(hist)
+    except BaseException as ex:  # noqa: BLE001
+        return {"steps": [], "shared": [], "error": f"{type(ex).__name__}: {str(ex)[:200]}"}
+
+
+def run_histories(hists):
+    """every history in a freshly forked child (maxtasksperchild=1): no state is inherited from other cases"""
+    import multiprocessing as mp
+
+    if not hists:
+        return []
+    with mp.get_context("fork").Pool(min(16, len(hists)), maxtasksperchild=1) as pool:
+        return pool.map(_safe_observe_history, hists, chunksize=1)
+
+
+def history_step(rng):
+    """a small call of one of the six helpers; uint/uint64 ids (what every wrapper uses) are frequent"""
+    r = rng.random()
+    d = rng.random() < 0.5
+    n = rng.choice([0, 1, 2, 3, 4, 5, 6])
+    m = rng.randint(0, max_possible(d, n) + 1)
+    if r < 0.35:
+        c = {"helper": rng.choice(list(WRAPPERS)), "directed": d, "n": n, "m": m}
+        if rng.random() < 0.15:
+            c = {"helper": c["helper"]}
+        return c
+    if r < 0.42:
+        return {"helper": "empty", "directed": d}
+    c = {"helper": rng.choice(["dummy", "mock"]), "id": rng.choice(["uint", "uint64", "uint", "uint8", "uint32", "int"]),
+         "time": rng.choice(AXIS_DT), "pos": rng.choice(AXIS_DT), "directed": d, "n": n, "m": m,
+         "vl": rng.random() < 0.4, "ms": rng.random() < 0.4}
+    if rng.random() < 0.4:
+        c["xn"] = rand_extra(rng, n, "np")
+        c["xe"] = rand_extra(rng, min(m, max_possible(d, n)), "ep")
+    return c
+
+
+def history_case(rng):
+    a = history_step(rng)
+    steps = [a]
+    for _ in range(rng.randint(1, 3)):
+        r = rng.random()
+        if r < 0.5:
+            steps.append(json.loads(json.dumps(a)))                       # the very same call again
+        elif r < 0.8 and "n" in a:                                        # same size / directedness, other helper or count
+            b = json.loads(json.dumps(a))
+            e = effective(a)
+            b["m"] = rng.randint(0, max_possible(e["directed"], e["n"]) + 1)
+            if b["helper"] in WRAPPERS and rng.random() < 0.5:
+                b["helper"] = rng.choice(list(WRAPPERS))
+            for k in ("xe",):
+                b.pop(k, None)                                            # explicit edge arrays depend on the edge count
+            steps.append(b)
+        else:
+            steps.append(history_step(rng))
+    return {"history": steps}
+
+
 # ----------------------------------------------------------------- the check
 def tag_of(case, o):
     e = effective(case)
@@ -564,7 +695,9 @@ def run(ck: common.Check):
                "{t,z,y,x} x include_varlength x include_missing x directed x 7 sizes through create_dummy_in_mem_geff and "
                "create_mock_geff + the four wrappers over (directed, n<=5, m) + id/axis dtype grid + seeded random extra-"
                "property maps (dtype strings and explicit 1-D/2-D arrays) + a malformed stream (bad dtype / length / "
-               "non-dict / key / value); non-trivial = at least one node; distinct = canonical JSON of the case")
+               "non-dict / key / value) + HISTORIES: 2-4 calls of the six helpers in one freshly forked process (same and different "
+               "parameters), every array of each result and its metadata edited in place before the next call; each call must equal "
+               "a fresh call and results must not share memory; non-trivial = at least one node; distinct = canonical JSON of the case")
     nmax = 9 if ck.quick else 25
     cases = list(corpus())
     n_corpus = len(cases)
@@ -577,10 +710,28 @@ def run(ck: common.Check):
         cases.append(malformed_case(ck.rng))
     ck.extra["corpus_cases"] = n_corpus
     ck.extra["edge_grid_exhaustive_upto_nodes"] = nmax
+    # histories: 2-4 calls in one process, every array of each result edited in place before the next call;
+    # each step is also a case of its own (fresh process pool) so that "what a fresh call returns" is observed
+    hists = [c for c in cases if "history" in c]
+    cases = [c for c in cases if "history" not in c]
+    hists += [{"history": [{"helper": h, "directed": d, "n": n, "m": m}] * 2}
+              for h in WRAPPERS for d in (False, True) for n, m in ((3, 2), (4, 6), (5, 4))]
+    hists += [{"history": [{"helper": "empty", "directed": d}] * 2} for d in (False, True)]
+    for _ in range(150 if ck.quick else 1500):
+        hists.append(history_case(ck.rng))
+    step_index = {}
+    for h in hists:
+        for st in h["history"]:
+            k = json.dumps(st, sort_keys=True)
+            if k not in step_index:
+                step_index[k] = len(cases)
+                cases.append(st)
+    ck.extra["histories"] = len(hists)
 
     vlen_ok = probe_vlen_ok()
     ck.extra["create_props_metadata_accepts_empty_object_array (D15 repaired on this tree)"] = vlen_ok
     obs = common.pmap(observe, cases, chunksize=32)
+    hobs = run_histories(hists)
 
     def guarded(what, c, f, dflt):
         """nothing the harness computes about a case may abort the check: an exception here means the
@@ -647,6 +798,31 @@ def run(ck: common.Check):
                 ck.corr_broken(f"C20:Geff.MockData model vs {c['helper']}: {d}", c,
                                {kk: o.get(kk) for kk in ("exc", "msg", "edges", "node_meta", "edge_meta", "store")},
                                mo if "exc" in mo else "see model")
+    # ---- histories: every step equals what a fresh call returns; results share no memory
+    def judge_history(h, ho):
+        if ho.get("error"):
+            raise RuntimeError(ho["error"])
+        for i, st in enumerate(h["history"]):
+            fresh = obs[step_index[json.dumps(st, sort_keys=True)]]
+            got = ho["steps"][i] if i < len(ho["steps"]) else {"unreadable": "no observation"}
+            if got != fresh:
+                diff = [k for k in sorted(set(got) | set(fresh)) if got.get(k) != fresh.get(k)]
+                ck.fail("C20:history-dependent-output",
+                        f"call {i + 1} of the history ({st}) differs from a fresh call in {diff[:6]} after the earlier "
+                        f"results were edited in place: e.g. {diff[0]}: {str(got.get(diff[0]))[:120]} vs fresh "
+                        f"{str(fresh.get(diff[0]))[:120]}", h, {k: got.get(k) for k in diff[:3]}, {k: fresh.get(k) for k in diff[:3]})
+                break
+        if ho["shared"]:
+            j, nb, i, na = ho["shared"][0]
+            ck.fail("C20:results-share-memory",
+                    f"{na} of call {i + 1} shares memory with {nb} of call {j + 1} ({len(ho['shared'])} pairs)", h,
+                    ho["shared"][:6], "independent arrays")
+
+    for h, ho in zip(hists, hobs):
+        lens = len(h["history"])
+        same = all(json.dumps(x, sort_keys=True) == json.dumps(h["history"][0], sort_keys=True) for x in h["history"])
+        ck.case(h, f"history-{lens}-{'same-call' if same else 'mixed'}", nontrivial=True)
+        guarded("judging a history", h, lambda: judge_history(h, ho), None)
     ck.extra["s_oracle_evaluations"] = s_evals
     ck.extra["explanation"] = (
         "C20_edges is proved about Gen.MockEdges.gen, regenerated from the source by T9 on every run (all directed, n, m); "
@@ -663,8 +839,28 @@ def run(ck: common.Check):
     ]
 
 
+def replay_history(h):
+    fresh = [observe(st) for st in h["history"]]            # fresh calls first (nothing is edited)
+    ho = _safe_observe_history(h)
+    bad = []
+    for i, st in enumerate(h["history"]):
+        got = ho["steps"][i] if i < len(ho["steps"]) else {"unreadable": ho.get("error", "no observation")}
+        if got != fresh[i]:
+            diff = [k for k in sorted(set(got) | set(fresh[i])) if got.get(k) != fresh[i].get(k)]
+            bad.append(["C20:history-dependent-output", f"call {i + 1} {st}: differs from a fresh call in {diff[:6]}: "
+                        f"{str(got.get(diff[0]))[:160]} vs {str(fresh[i].get(diff[0]))[:160]}"])
+            break
+    if ho["shared"]:
+        bad.append(["C20:results-share-memory", str(ho["shared"][:4])])
+    print(json.dumps({"history": h["history"], "failures": bad}, default=str))
+    print("REPLAY: property holds on this input" if not bad else "REPLAY: property FAILS on this input")
+    return 0 if not bad else 1
+
+
 def replay(rp):
     c = rp["case"]
+    if "history" in c:
+        return replay_history(c)
     o = observe(c)
     try:
         fails = [] if c.get("malformed") else oracle(c, o)
